@@ -133,6 +133,9 @@ func (famFuzz) Gen(r *rand.Rand, n int, _ map[string]string) []any {
 					"| pattern \"<a><b>\"", "| pattern \"\"", "| pattern \"<a> <a>\"", "| json x=\"a[\"", "| json x=\"a..b\"", "| json x=\"[99999999999999999999]\"",
 					"| logfmt x=\"\\\"\"", "| regexp \"(?P<a>x)(?P<a>y)\"", "| regexp \"(?P<1a>x)\"", "|= ip(\"999.1.1.1\")", "| addr = ip(\"1.2.3.4-\")", "| addr = ip(\"::/999\")",
 					"| unwrap v", "| drop", "| keep ,", "| distinct",
+					// regular expressions whose ends look like removable wildcards but are not
+					"|~ \".*?x\"", "!~ \"a\\\\.*\"", "|~ \".*\"", "|~ \".*.*\"", "|~ \"\\\\.*\"", "|~ \".*?\"", "|~ \"(.*)\"", "|~ \".*|x\"", "|~ \"x|.*\"", "!~ \".*+\"",
+					"| a =~ \".*?x\"", "| a !~ \"x\\\\.*\"", "|~ \"^.*$\"", "|~ \".*\\\\\"",
 					// well-formed ip() filters over lines full of near-addresses
 					"|= ip(\"::1\")", "!= ip(\"192.168.0.0/16\")", "|= ip(\"10.0.0.1-10.0.0.9\")", "|= ip(\"fe80::/10\") != ip(\"1.2.3.4\")", "| logfmt | addr = ip(\"::1\")",
 					"| logfmt | addr != ip(\"10.0.0.0/8\")", "|= ip(\"::\")", "|= ip(\"0.0.0.0/0\")", "|= ip(\"::/0\")",
